@@ -144,4 +144,206 @@ example : RevokedIn exGlue C11.Props.exEnv C11.Props.exK C11.Props.exWorld false
       ((C11.run C11.Props.exEnv C11.Props.exK C11.Props.exWorld [.entryTx false "did:a" none]).get false) "did:a#1" C11.Props.exEntry).isOk = true := by decide
     rw [h] at this; cases this
 
+/-! ## (3) a token is issued only for verified, matching, unrevoked presentations -/
+
+/-- one request: if C02's token endpoint answers 200 to the composed request, then C01's `VerifyVP(vp, true, true, nil)` over
+    the revocation world accepted EVERY presentation, C12's `Validate` accepted the submission for the definition the policy
+    names for the requested scope, and what introspection later reports as additional claims is exactly the rendering of
+    the values C12's `resolveFields` resolved from the credentials C12's `resolve` found in the envelope. -/
+theorem token_step_only_for_verified_matching (x : Ctx) (cfg2 : C02.Cfg)
+    (hchk : cfg2.emptyVpChecked = true) (httl : cfg2.nonceTtl ≠ 0) (httl' : cfg2.tokenTtl ≠ 0)
+    (hdid : ∀ u, x.base.didOfURL u ≠ some "")
+    (rw : C11.World) (w w' : C02.World) (now : Nat) (r : Req) (resp : C02.TokenResponse)
+    (h : C02.issueS2S cfg2 w now (s2sOf x rw r) = (w', .ok resp)) :
+    ∃ claims, Established x cfg2 rw r claims ∧
+      ∀ now' ri, C02.introspect cfg2 w' now' resp.token = .ok (some ri) → ri.additional = claims := by
+  obtain ⟨rec, hest, htok, _, hrec, _, _⟩ := issue_established x cfg2 rw w w' now r resp hchk httl hdid h
+  refine ⟨rec.claims, hest, ?_⟩
+  intro now' ri hi
+  obtain ⟨t, _, hget, _, _, hri⟩ := C02.introspect_some cfg2 w' now' resp.token ri hi
+  rw [hrec, htok, C02.Store.get_put_same _ _ _ _ _ _ httl'] at hget
+  split at hget
+  · cases hget; rw [hri]
+  · cases hget
+
+/-- **token_issued_only_for_verified_matching_unrevoked.**  For every composed history (revocation-layer events and token
+    requests in any order) from the empty authorization server: a token that introspection reports active stems from a request
+    event of the history such that, in the C11-REACHABLE revocation world of that moment, C01 accepted every presentation of
+    the request; no credential of any presentation was revoked in the C11 history so far (`RevokedIn`); C12's `Validate`
+    accepted the submission for the scope's definition; and the introspected claims are exactly the rendering of what C12
+    resolved (`claims_cannot_override` then keeps them from shadowing a standard member). -/
+theorem token_issued_only_for_verified_matching_unrevoked (x : Ctx) (cfg2 : C02.Cfg) (sha : String → String)
+    (hchk : cfg2.emptyVpChecked = true) (httl : cfg2.nonceTtl ≠ 0) (httl' : cfg2.tokenTtl ≠ 0)
+    (hdid : ∀ u, x.base.didOfURL u ≠ some "")
+    (hE : C11.EnvOK x.E11) (rw0 : C11.World) (h0 : C11.WInv x.E11 rw0)
+    (evs : List Ev) (now : Nat) (tok : String) (ri : C02.Introspection)
+    (h : C02.introspect cfg2 (runEv x cfg2 ⟨rw0, {}⟩ evs).as now tok = .ok (some ri)) :
+    ∃ pre t r post, evs = pre ++ Ev.req t r :: post ∧
+      Established x cfg2 (C11.run x.E11 x.K rw0 (revActs pre)) r ri.additional ∧
+      (∀ p ∈ r.vps, ∀ c ∈ p.1.vcs, ¬ RevokedIn x.g x.E11 x.K rw0 x.node c (revActs pre)) := by
+  rw [runEv_as x cfg2 sha evs ⟨rw0, {}⟩] at h
+  obtain ⟨pre', t, op, post', rec, heq, hiss, _, _, _, _, _, _, _, _, _, hadd⟩ :=
+    C02.Props.introspect_active_only_if_issued cfg2 sha hchk httl httl' _ (trace_wf x cfg2 hdid evs _) now tok ri h
+  obtain ⟨pre, r, post, hevs, htr, hop⟩ := trace_split x cfg2 evs _ pre' post' t op heq
+  subst hop
+  obtain ⟨resp, hstep, _, hname, htoks, _, _, _⟩ := hiss
+  have hI : C02.issueS2S cfg2 (C02.after cfg2 sha pre' {}) t (s2sOf x (runEv x cfg2 ⟨rw0, {}⟩ pre).rw r) =
+      ((C02.issueS2S cfg2 (C02.after cfg2 sha pre' {}) t (s2sOf x (runEv x cfg2 ⟨rw0, {}⟩ pre).rw r)).1, .ok resp) := by
+    simp only [C02.step, C02.Out.token.injEq] at hstep
+    rw [← hstep]
+  obtain ⟨rec', hest, _, _, hrec', _, _⟩ := issue_established x cfg2 _ _ _ t r resp hchk httl hdid hI
+  have htoks' : (C02.issueS2S cfg2 (C02.after cfg2 sha pre' {}) t (s2sOf x (runEv x cfg2 ⟨rw0, {}⟩ pre).rw r)).1.tokens =
+      (C02.after cfg2 sha pre' {}).tokens.put t cfg2.tokenTtl tok rec := by
+    simpa [C02.step] using htoks
+  rw [htoks', hname] at hrec'
+  have := put_inj _ _ _ _ _ _ httl' hrec'
+  subst this
+  rw [runEv_rw] at hest
+  rw [hadd]
+  refine ⟨pre, t, r, post, hevs, hest, ?_⟩
+  intro p hp c hc hrev
+  exact (revoked_credential_never_verifies x.g x.E11 x.K hE rw0 h0 x.node c _ hrev x.cfg1 x.P x.base true none).2 p.1 hc (hest.1 p hp)
+
+/-! ## (4) revocation after issue -/
+
+/-- **revocation_after_issue_does_not_resurrect.**  A token was issued for request `r` (event `req t r` after `pre`).  Later
+    (`mid`) a credential `c` is revoked in the C11 layer.  Then, after any further history `post`:
+      (a) EVERY later token request that presents `c` in any of its presentations is refused — never a 200;
+      (b) what the models say about the ALREADY ISSUED token: nothing in C02 connects the token store to the revocation
+          layer — its introspection is, at every moment, the same as if nothing had happened after the issue, and until its own
+          expiry (`t + tokenValidity`) it is NOT reported inactive.  (The composition states this; it does not invent a
+          token-revocation behaviour the Go code does not have.) -/
+theorem revocation_after_issue_does_not_resurrect (x : Ctx) (cfg2 : C02.Cfg) (sha : String → String)
+    (hchk : cfg2.emptyVpChecked = true) (httl : cfg2.nonceTtl ≠ 0) (httl' : cfg2.tokenTtl ≠ 0)
+    (hsame : cfg2.tokenTtl = cfg2.tokenValidity) (hdid : ∀ u, x.base.didOfURL u ≠ some "")
+    (hE : C11.EnvOK x.E11) (rw0 : C11.World) (h0 : C11.WInv x.E11 rw0)
+    (pre mid post : List Ev) (t : Nat) (r : Req) (resp : C02.TokenResponse)
+    (hiss : (stepEv x cfg2 (runEv x cfg2 ⟨rw0, {}⟩ pre) (.req t r)).2 = some (.ok resp))
+    (c : C01.Cred) (hrev : RevokedIn x.g x.E11 x.K rw0 x.node c (revActs (pre ++ Ev.req t r :: mid))) :
+    (∀ t' r' resp', (∃ p ∈ r'.vps, c ∈ p.1.vcs) →
+        (stepEv x cfg2 (runEv x cfg2 ⟨rw0, {}⟩ ((pre ++ Ev.req t r :: mid) ++ post)) (.req t' r')).2 ≠ some (.ok resp')) ∧
+    (∀ now, C02.introspect cfg2 (runEv x cfg2 ⟨rw0, {}⟩ ((pre ++ Ev.req t r :: mid) ++ post)).as now resp.token =
+            C02.introspect cfg2 (runEv x cfg2 ⟨rw0, {}⟩ (pre ++ [Ev.req t r])).as now resp.token) ∧
+    (∀ now, now ≤ t + cfg2.tokenValidity →
+        C02.introspect cfg2 (runEv x cfg2 ⟨rw0, {}⟩ ((pre ++ Ev.req t r :: mid) ++ post)).as now resp.token ≠ .ok none) := by
+  refine ⟨?_, ?_⟩
+  · intro t' r' resp' ⟨p, hp, hc⟩ hok
+    have hI : C02.issueS2S cfg2 (runEv x cfg2 ⟨rw0, {}⟩ ((pre ++ Ev.req t r :: mid) ++ post)).as t'
+        (s2sOf x (runEv x cfg2 ⟨rw0, {}⟩ ((pre ++ Ev.req t r :: mid) ++ post)).rw r') =
+        ((C02.issueS2S cfg2 (runEv x cfg2 ⟨rw0, {}⟩ ((pre ++ Ev.req t r :: mid) ++ post)).as t'
+          (s2sOf x (runEv x cfg2 ⟨rw0, {}⟩ ((pre ++ Ev.req t r :: mid) ++ post)).rw r')).1, .ok resp') := by
+      simp only [stepEv, Option.some.injEq] at hok
+      rw [← hok]
+    obtain ⟨_, hest, _⟩ := issue_established x cfg2 _ _ _ t' r' resp' hchk httl hdid hI
+    rw [runEv_rw, revActs_append] at hest
+    exact (revoked_credential_never_verifies x.g x.E11 x.K hE rw0 h0 x.node c _ (hrev.extend _) x.cfg1 x.P x.base true none).2
+      p.1 hc (hest.1 p hp)
+  · -- the issued token: C02's `introspect_faithful` on the trace
+    have hI : C02.issueS2S cfg2 (runEv x cfg2 ⟨rw0, {}⟩ pre).as t (s2sOf x (runEv x cfg2 ⟨rw0, {}⟩ pre).rw r) =
+        ((C02.issueS2S cfg2 (runEv x cfg2 ⟨rw0, {}⟩ pre).as t (s2sOf x (runEv x cfg2 ⟨rw0, {}⟩ pre).rw r)).1, .ok resp) := by
+      simp only [stepEv, Option.some.injEq] at hiss
+      rw [← hiss]
+    obtain ⟨rec, _, htok, hnext, hrec, hia, hex⟩ := issue_established x cfg2 _ _ _ t r resp hchk httl hdid hI
+    have hasp : (runEv x cfg2 ⟨rw0, {}⟩ pre).as = C02.after cfg2 sha (trace x cfg2 ⟨rw0, {}⟩ pre) {} := runEv_as x cfg2 sha pre _
+    have hIssued : C02.Issued cfg2 sha (C02.after cfg2 sha (trace x cfg2 ⟨rw0, {}⟩ pre) {}) t
+        (.s2s (s2sOf x (runEv x cfg2 ⟨rw0, {}⟩ pre).rw r)) resp.token rec := by
+      rw [← hasp]
+      refine ⟨resp, ?_, rfl, htok, ?_, ?_, hia, hex⟩
+      · simp only [C02.step]; rw [hI]
+      · simp only [C02.step]; rw [htok]; exact hrec
+      · simp only [C02.step]; exact hnext
+    have key : ∀ rest : List Ev, ∀ now,
+        C02.introspect cfg2 (runEv x cfg2 ⟨rw0, {}⟩ (pre ++ Ev.req t r :: rest)).as now resp.token =
+          if now ≤ t + cfg2.tokenValidity then
+            (match C02.firstReserved cfg2.reserved rec.claims with
+             | some k => .err ("reserved-claim:" ++ k)
+             | none => .ok (some
+                { active := true, cnf := rec.dpop.map (fun d => "{\"jkt\":" ++ C02.jstr d.jkt ++ "}"),
+                  iat := some (t / cfg2.second), exp := some ((t + cfg2.tokenValidity) / cfg2.second),
+                  iss := some (C02.jstr rec.issuer), clientId := some (C02.jstr rec.clientId), scope := some (C02.jstr rec.scope),
+                  vps := some (toString rec.vps), pds := some (C02.renderDefs rec.defs),
+                  pss := some (C02.renderSubs rec.submissions), additional := rec.claims }))
+          else .ok none := by
+      intro rest now
+      have htr : trace x cfg2 ⟨rw0, {}⟩ (pre ++ Ev.req t r :: rest) =
+          trace x cfg2 ⟨rw0, {}⟩ pre ++ (t, .s2s (s2sOf x (runEv x cfg2 ⟨rw0, {}⟩ pre).rw r)) ::
+            trace x cfg2 (stepEv x cfg2 (runEv x cfg2 ⟨rw0, {}⟩ pre) (.req t r)).1 rest := by
+        rw [trace_append]; simp [trace, opOf]
+      rw [runEv_as x cfg2 sha _ ⟨rw0, {}⟩, htr]
+      refine C02.Props.introspect_faithful cfg2 sha hchk httl httl' hsame _ _ t _ resp.token rec ?_ hIssued now
+      rw [← htr]; exact trace_wf x cfg2 hdid _ _
+    refine ⟨?_, ?_⟩
+    · intro now
+      have e1 : (pre ++ Ev.req t r :: mid) ++ post = pre ++ Ev.req t r :: (mid ++ post) := by simp
+      rw [e1, key (mid ++ post) now, key [] now]
+    · intro now hle
+      have e1 : (pre ++ Ev.req t r :: mid) ++ post = pre ++ Ev.req t r :: (mid ++ post) := by simp
+      rw [e1, key (mid ++ post) now, if_pos hle]
+      cases C02.firstReserved cfg2.reserved rec.claims <;> simp
+
+
+/-! non-vacuity of (3) and (4): C01's accepted example presentation at the token endpoint, then the issuer's revocation -/
+
+/-- the revocation layer's key resolver knows the example issuer's key; toy signature check -/
+def exK1 : C11.KeyEnv := ⟨fun vm _ => if vm == "did:x:i#k" then some "K1" else none, fun _ _ _ => true⟩
+/-- the issuer `did:x:i` revokes its credential `did:x:i#1` (C11 `buildRevocation`) -/
+def exRev1 : C11.Revocation := C11.buildRevocation "did:x:i#1" "did:x:i#k" "sig" 150
+
+/-- C01's example verifier (toy crypto, one trusted issuer) at clock 2000, C11's example world and keys, C12 as the source
+    has it today -/
+def exCtx : Ctx :=
+  { g := exGlue, cfg1 := C01.Props.exCfg, P := C01.Props.exP, base := { C01.Props.exE with now := 2000 },
+    E11 := C11.Props.exEnv, K := exK1, node := false,
+    cfg12 := Facts.C12.cfg, re := C12.Props.reNone, decode := fun _ _ => none }
+
+def exCfg2 : C02.Cfg :=
+  { maxValidity := 5, nonceTtl := 15, tokenValidity := 900, tokenTtl := 900, codeTtl := 60, oauthNonceTtl := 60,
+    stateTtl := 60, verifierSkew := 5, second := 1, emptyVpChecked := true, reserved := Facts.C02.reservedClaims,
+    marshalOrder := Facts.C02.marshalAssignOrder, publicURL := "https://as", subjects := ["alpha"],
+    policy := [("care", [("organization", ⟨"pd_org", 0⟩)])] }
+
+def exWire : C02.S2SReq :=
+  { subject := "alpha", paramsPresent := true, clientId := "client", scope := "care", envelopeOK := true,
+    submissionOK := true, vps := [], subDefId := "pd_org", pex := fun _ => false, claims := fun _ => [], dpop := .absent }
+
+def exVPWire (nonce : String) : C02.VP :=
+  { created := some 100, expires := some 105, signer := none, subjects := [], aud := ["https://as/oauth2/alpha"],
+    nonce := nonce, challenge := "", verifies := false }
+
+/-- C01's accepted example presentation (one credential, `did:x:i#1`) -/
+def exReq (nonce : String) : Req := { wire := exWire, vps := [(C01.Props.exVP, exVPWire nonce)], sub := [] }
+
+def exS0 : St := ⟨C11.Props.exWorld, {}⟩
+
+example : accepts exCtx C11.Props.exWorld C01.Props.exVP = true := by decide
+example : (fieldsOf exCtx C11.Props.exWorld [C01.Props.exVP] [] 0).isOk = true := by decide
+example : ((stepEv exCtx exCfg2 exS0 (.req 102 (exReq "n1"))).2.map (·.isOk)) = some true := by decide
+
+/-- T3 non-vacuity: the token of the request is reported active -/
+example : (match C02.introspect exCfg2 (runEv exCtx exCfg2 exS0 [.req 102 (exReq "n1")]).as 200 "tok#0" with
+    | .ok (some ri) => ri.active | _ => false) = true := by decide
+
+/-- T4 non-vacuity: token issued, THEN the issuer's revocation arrives and is accepted (`RevokedIn` through `mid`) … -/
+example : (stepEv exCtx exCfg2 (runEv exCtx exCfg2 exS0 []) (.req 102 (exReq "n1"))).2 =
+    some (.ok { token := "tok#0", tokenType := "Bearer", dpopKid := none, scope := "care", expiresIn := 900 }) := by decide
+example : RevokedIn exGlue C11.Props.exEnv exK1 C11.Props.exWorld false C01.Props.exC
+    (revActs ([] ++ Ev.req 102 (exReq "n1") :: [.rev (.register false exRev1)])) := by
+  show RevokedIn exGlue C11.Props.exEnv exK1 C11.Props.exWorld false C01.Props.exC ([] ++ [.register false exRev1] ++ [])
+  cases h : C11.registerRevocation exK1 ((C11.run C11.Props.exEnv exK1 C11.Props.exWorld []).get false) exRev1 with
+  | ok n' => exact .network [] [] _ n' h rfl
+  | err e =>
+    have : (C11.registerRevocation exK1 ((C11.run C11.Props.exEnv exK1 C11.Props.exWorld []).get false) exRev1).isOk = true := by decide
+    rw [h] at this; cases this
+  | panic e =>
+    have : (C11.registerRevocation exK1 ((C11.run C11.Props.exEnv exK1 C11.Props.exWorld []).get false) exRev1).isOk = true := by decide
+    rw [h] at this; cases this
+/-- … the same presentation with a fresh nonce is now refused, while the old token is still reported active -/
+example : (stepEv exCtx exCfg2 (runEv exCtx exCfg2 exS0 [.req 102 (exReq "n1"), .rev (.register false exRev1)]) (.req 103 (exReq "n2"))).2 =
+    some (.err "invalid_request/vp-invalid") := by decide
+example : (stepEv exCtx exCfg2 (runEv exCtx exCfg2 exS0 [.req 102 (exReq "n1")]) (.req 103 (exReq "n2"))).2.map (·.isOk) = some true := by decide
+example : (match C02.introspect exCfg2 (runEv exCtx exCfg2 exS0 [.req 102 (exReq "n1"), .rev (.register false exRev1)]).as 200 "tok#0" with
+    | .ok (some ri) => ri.active | _ => false) = true := by decide
+example : C11.EnvOK C11.Props.exEnv ∧ C11.WInv C11.Props.exEnv C11.Props.exWorld ∧ (∀ u, exCtx.base.didOfURL u ≠ some "") :=
+  ⟨C11.Props.exEnv_ok, C11.Props.exWorld_inv, by intro u; show (if _ then _ else _) ≠ _; split <;> simp⟩
+
 end Nuts.Compose.Cred.Props
